@@ -25,6 +25,7 @@ def run(ctx):
                        "distinct = (config, op, outcome) classes")
     for c in configs(ctx):
         F.run_config(ctx, PID, c)
+    F.run_recorded(ctx, PID, "random-wide", 40 if ctx.quick else 2000, 40 if ctx.quick else 60, OPS + ["open_iter", "assign", "copy", "docset", "reset"], projects=("P",))
     ctx.cov["binding_selftest"] = F.selftest(ctx, PID)
 
 
